@@ -39,11 +39,25 @@ def main():
             meta["apply_error"] = out[-800:]
             print(json.dumps(meta, indent=1)); return 1
         # demo files
-        demos = [f for f in glob.glob(os.path.join(seed, "*")) if not f.endswith(("patch.diff", "notes.md"))]
+        demos = [f for f in glob.glob(os.path.join(seed, "*")) if not f.endswith(("patch.diff", "notes.md", ".diff", ".md", ".log", ".txt"))]
         meta["demo_files"] = [os.path.basename(d) for d in demos]
+
+        external = False
+        for d in demos:
+            if d.endswith("_test.go"):
+                pm = re.search(r"^package\s+(\w+)", open(d).read(), re.M)
+                if pm and pm.group(1) not in ("sftp", "sftp_test"):
+                    external = True
 
         def place():
             placed = []
+            if external:
+                sub = os.path.join(wt, "zz_seed_demo")
+                os.makedirs(sub, exist_ok=True)
+                for d in demos:
+                    if os.path.isfile(d):
+                        shutil.copy(d, os.path.join(sub, os.path.basename(d)))
+                return [sub]
             for d in demos:
                 dst = os.path.join(wt, os.path.basename(d))
                 if os.path.isdir(d):
@@ -54,12 +68,21 @@ def main():
             return placed
 
         def demo_cmd():
-            tests = []
+            tests, tags = [], []
             for d in demos:
                 if d.endswith("_test.go"):
-                    tests += re.findall(r"^func (Test\w+)\(", open(d).read(), re.M)
+                    src = open(d).read()
+                    tests += re.findall(r"^func (Test\w+)\(", src, re.M)
+                    m = re.search(r"^//go:build\s+(.*)$", src, re.M)
+                    if m:
+                        for w in re.findall(r"[A-Za-z_][A-Za-z0-9_]*", m.group(1)):
+                            if w not in ("linux", "unix", "darwin", "windows", "freebsd", "amd64", "arm64", "cgo", "race"):
+                                tags.append(w)
             if tests:
-                return ["go", "test", "-vet=off", "-count=1", "-run", "^(" + "|".join(tests) + ")$", "."], tests
+                cmd = ["go", "test", "-vet=off", "-count=1", "-timeout", "180s"]
+                if tags:
+                    cmd += ["-tags", ",".join(sorted(set(tags)))]
+                return cmd + ["-run", "^(" + "|".join(tests) + ")$", "./zz_seed_demo/" if external else "."], tests
             for d in demos:
                 if os.path.isdir(d):
                     return ["go", "run", "./" + os.path.basename(d)], []
